@@ -58,7 +58,7 @@ type Drawing struct {
 
 // DrawItem is one drawing command.
 type DrawItem struct {
-	Kind   string    `json:"kind"` // path | text
+	Kind   string    `json:"kind"`            // path | text
 	Paint  int       `json:"paint,omitempty"` // 0 colour, 1 linear gradient, 2 radial gradient, 3 line hatch, 4 cross hatch
 	Shape  *Shape    `json:"shape,omitempty"`
 	Fill   [4]uint8  `json:"fill"`
@@ -125,24 +125,26 @@ type Violation struct {
 
 // RunReport is the JSON line a worker prints per run.
 type RunReport struct {
-	Run         int          `json:"run"`
-	RunSeed     uint64       `json:"run_seed"`
-	Profile     string       `json:"profile"`
-	Tasks       int          `json:"tasks"`
-	Steps       int          `json:"steps"`
-	Ops         []string     `json:"ops"`
-	RefPanics   int          `json:"ref_panics"`
-	Violations  []Violation  `json:"violations,omitempty"`
-	Stats       *simrt.Stats `json:"stats"`
-	SitePairs   []uint64     `json:"site_pairs,omitempty"`
-	SiteHits    map[int]int  `json:"site_hits,omitempty"`
-	Ranges      uint64       `json:"ranges"`
-	RangesMulti uint64       `json:"ranges_multi"`
-	Races       int          `json:"races"`
-	RaceFrom    int64        `json:"race_from,omitempty"`
-	RaceTo      int64        `json:"race_to,omitempty"`
-	CPUms       float64      `json:"cpu_ms"`
-	RefCPUms    float64      `json:"ref_cpu_ms"`
-	ResultHash  uint64       `json:"result_hash"` // hash over all simulation-phase results (determinism self-test)
-	Nontrivial  bool         `json:"nontrivial"`
+	Run           int          `json:"run"`
+	RunSeed       uint64       `json:"run_seed"`
+	Profile       string       `json:"profile"`
+	Tasks         int          `json:"tasks"`
+	Steps         int          `json:"steps"`
+	Ops           []string     `json:"ops"`
+	RefPanics     int          `json:"ref_panics"`
+	Violations    []Violation  `json:"violations,omitempty"`
+	Stats         *simrt.Stats `json:"stats"`
+	SitePairs     []uint64     `json:"site_pairs,omitempty"`
+	SiteHits      map[int]int  `json:"site_hits,omitempty"`
+	Ranges        uint64       `json:"ranges"`
+	RangesMulti   uint64       `json:"ranges_multi"`
+	Races         int          `json:"races"`
+	RaceFrom      int64        `json:"race_from,omitempty"`
+	RaceTo        int64        `json:"race_to,omitempty"`
+	CPUms         float64      `json:"cpu_ms"`
+	RefCPUms      float64      `json:"ref_cpu_ms"`
+	ResultHash    uint64       `json:"result_hash"` // hash over all simulation-phase results (determinism self-test)
+	Nontrivial    bool         `json:"nontrivial"`
+	LinOps        int          `json:"lin_ops,omitempty"`
+	LinConcurrent int          `json:"lin_concurrent_pairs,omitempty"`
 }
